@@ -118,6 +118,63 @@ type Gen struct {
 	Bits  int        // width of the representation in bits (multiple of 8)
 	C     uint64     // reduction constant handed to EdgeLimb
 	Extra []*big.Int // field-specific interesting values (any size, used as is by Raw; reduced by Draw)
+	// MontRBits > 0: the package stores elements in Montgomery form x*2^MontRBits.
+	// Draw then also returns values whose *stored* form is an edge pattern
+	// (m / R for an edge-limb m): limb-level slips in comparisons, carries and
+	// conditional subtractions show on the stored words, and API-level edge
+	// values have pseudo-random stored words.
+	MontRBits int
+}
+
+// MontDraw returns m / R mod P for an edge-pattern m < P (MontRBits must be set).
+func (g *Gen) MontDraw(r *lib.Rng) *big.Int {
+	m := g.Raw(r)
+	m.Mod(m, g.P)
+	rinv := new(big.Int).ModInverse(Pow2(g.MontRBits), g.P)
+	return m.Mul(m, rinv).Mod(m, g.P)
+}
+
+// MontNeighbour returns a value y != x (when it can) whose stored Montgomery
+// words differ from those of x only in the low 32-bit halves, or only in the
+// high halves, of some 64-bit words.
+func (g *Gen) MontNeighbour(r *lib.Rng, x *big.Int) *big.Int {
+	R := Pow2(g.MontRBits)
+	rinv := new(big.Int).ModInverse(R, g.P)
+	xm := new(big.Int).Mul(Mod(x, g.P), R)
+	xm.Mod(xm, g.P)
+	nl := (g.MontRBits + 63) / 64
+	for try := 0; try < 8; try++ {
+		ym := new(big.Int).Set(xm)
+		high := r.Bool()
+		for i := 0; i < nl; i++ {
+			if r.Intn(2) == 0 && try < 6 {
+				continue
+			}
+			var v uint64
+			switch r.Intn(4) {
+			case 0:
+				v = 0
+			case 1:
+				v = 0xFFFFFFFF
+			case 2:
+				v = 1
+			default:
+				v = uint64(r.U32())
+			}
+			sh := uint(64 * i)
+			if high {
+				sh += 32
+			}
+			// clear the half and set it to v
+			mask := new(big.Int).Lsh(big.NewInt(0xFFFFFFFF), sh)
+			ym.AndNot(ym, mask)
+			ym.Or(ym, new(big.Int).Lsh(new(big.Int).SetUint64(v), sh))
+		}
+		if ym.Cmp(g.P) < 0 && ym.Cmp(xm) != 0 {
+			return ym.Mul(ym, rinv).Mod(ym, g.P)
+		}
+	}
+	return Mod(x, g.P)
 }
 
 // Raw draws an integer in [0, 2^Bits): reduced or not.
@@ -190,6 +247,9 @@ func (g *Gen) Raw(r *lib.Rng) *big.Int {
 
 // Draw returns an integer in [0,P).
 func (g *Gen) Draw(r *lib.Rng) *big.Int {
+	if g.MontRBits > 0 && r.Intn(16) < 3 {
+		return g.MontDraw(r)
+	}
 	v := g.Raw(r)
 	if v.Cmp(g.P) >= 0 {
 		// values just above p map to small residues, which are edges too
